@@ -93,6 +93,7 @@ func runConc(in, out string, _ []string) error {
 			}
 		}
 		w.Emit(tr.Ev{"t": sc.ID, "e": "begin", "sources": len(texts)})
+		w.Flush() // a fatal error of the runtime (memory exhausted by a corrupted shared structure) ends the process
 		run := 0
 		obs := func(src int, td, jd, pan string, wave int) {
 			run++
